@@ -269,6 +269,7 @@ struct MtEngine : Engine {
   const char *name() const override { return "mtsim"; }
   Plan gen(const GenCfg &c) override { MtGen G(c); return G.make(); }
   void prepare(const Plan &p) override { for (auto *t : p.all("task")) if (t->s("kind") != "enc") get_link(Recipe::from(*t)); }
+  Plan refcrash_plan(const GenCfg &c, const Rec &link) override { Plan p; p.add("meta").set("prop", "C18").setu("seed", c.seed).set("mode", "refcrash"); Rec &a = p.add("task"); a = link; a.type = "task"; a.set("kind", "dec"); p.add("sched").set("strategy", 0); return p; }
   std::vector<std::string> droppable() const override { return {"task"}; }
   bool valid(const Plan &p) override { return p.count("task") >= 1; }
   std::vector<Plan> simplify(const Plan &p) override {
